@@ -421,3 +421,6 @@ func CutsBetweenUnorderedMarks(line string) string {
 	}
 	return line[a+1 : b]
 }
+
+// LooksBehindWithoutLength violates R2.22.
+func LooksBehindWithoutLength(s string) bool { return len(s) >= 2 && s[len(s)-3] == ' ' }
